@@ -172,6 +172,7 @@ func ago(t0 time.Time, ageH float64) time.Time {
 	}
 	return t0.Add(-time.Duration(ageH * float64(time.Hour)))
 }
+
 var expiries = []time.Duration{time.Hour, 24 * time.Hour, 72 * time.Hour}
 
 type witness struct {
@@ -338,8 +339,61 @@ func TestC10(t *testing.T) {
 		}
 		r.Count("stores", 1)
 	})
-}
 
+	// near the threshold: idle times a fraction of a second short of / past the
+	// expiry, incl. expiries that are not a whole number of seconds. Gc reads
+	// the clock itself, so a datum is only judged when "expired" comes out the
+	// same at the instants just before and just after the pass.
+	nrng := ev.NewRNG(ev.Seed(), "c10-near")
+	for c := 0; c < ev.Pick(400, 20000); c++ {
+		g := nrng.Sub(c)
+		st := metrics.NewStore()
+		m := metrics.NewMetric("near", "prog", metrics.Gauge, metrics.Int, "k")
+		_ = st.Add(m)
+		type ent struct {
+			lab    string
+			ts     time.Time
+			expiry time.Duration
+		}
+		var ents []ent
+		for k := 0; k < g.Range(1, 6); k++ {
+			e := ev.PickOne(g, []time.Duration{time.Second, 2 * time.Second, 1700 * time.Millisecond, 2500 * time.Millisecond, time.Hour, 90 * time.Minute})
+			off := time.Duration(g.Range(150, 900)) * time.Millisecond
+			if g.Bool() {
+				off = -off
+			}
+			lab := fmt.Sprintf("n%d", k)
+			ts := time.Now().Add(-e - off)
+			d, _ := m.GetDatum(lab)
+			datum.SetInt(d, int64(k), ts)
+			_ = m.ExpireDatum(e, lab)
+			ents = append(ents, ent{lab, ts, e})
+		}
+		t0 := time.Now()
+		_ = st.Gc()
+		t1 := time.Now()
+		r.Eval(1)
+		for _, e := range ents {
+			e0, e1 := t0.Sub(e.ts) > e.expiry, t1.Sub(e.ts) > e.expiry
+			if e0 != e1 {
+				r.Count("near_threshold_data_not_judged", 1)
+				continue
+			}
+			m.RLock()
+			present := m.FindLabelValueOrNil([]string{e.lab}) != nil
+			m.RUnlock()
+			r.Count("near_threshold_data_judged", 1)
+			if present == e0 {
+				what := "removed although its idle time was still below its expiry"
+				if present {
+					what = "survived although its idle time exceeded its expiry"
+				}
+				r.Violation("near-threshold", map[string]any{"expiry": e.expiry.String(), "idle_before_pass": t0.Sub(e.ts).String(), "idle_after_pass": t1.Sub(e.ts).String(), "what": "datum " + what})
+				return
+			}
+		}
+	}
+}
 func cls(w string) string {
 	switch {
 	case len(w) > 5 && w[:5] == "limit":
